@@ -124,6 +124,25 @@ ReplayProg(kindOf) ==
 
 VARIABLE st
 Init == st = [phase |-> 0]
+\* flow "list": n countersignatures by different countersigners attached as a list, the parent sent and parsed: every entry of the
+\* decoded list verifies for this parent under its own key and under no other entry's key
+SgN(i) == [kind |-> "sym", name |-> ("k" \o ToString(i)), alg |-> 0 - 7, fault |-> ""]
+CsLayer(i) == [P |-> <<<<GoInt("int64", 1), [t |-> "alg", neg |-> TRUE, a |-> <<6>>]>>, <<GoInt("int64", 4), GoBytes(<<64 + i>>)>>>>, U |-> <<>>, sig |-> <<>>]
+CsName(i) == "cs" \o ToString(i)
+ListProg(pk, label, n, x) ==
+  <<[op |-> "new", obj |-> "par", kind |-> pk, m |-> ParentM(pk, P1, ParSig, Pay)]>>
+  \o [j \in 1..(2 * n) |-> IF j % 2 = 1 THEN [op |-> "new", obj |-> CsName((j + 1) \div 2), kind |-> "csig", m |-> CsLayer((j + 1) \div 2)]
+                            ELSE [op |-> "countersign", obj |-> CsName(j \div 2), parent |-> "par", form |-> "ptr", signers |-> <<SgN(j \div 2)>>] @@ x]
+  \o <<[op |-> "attachcs", obj |-> "par", label |-> label, css |-> [i \in 1..n |-> CsName(i)]],
+       [op |-> "marshal", obj |-> "par", buf |-> "b"],
+       [op |-> "unmarshal", obj |-> "p2", kind |-> pk, buf |-> "b"]>>
+  \o [j \in 1..(3 * n) |->
+        LET i == (j + 2) \div 3 IN
+        CASE j % 3 = 1 -> [op |-> "extractcs", obj |-> "x", from |-> "p2", label |-> label, index |-> i - 1]
+          [] j % 3 = 2 -> [op |-> "verifycs", obj |-> "x", parent |-> "p2", form |-> "val", verifiers |-> <<SgN(i)>>] @@ x
+          [] OTHER     -> [op |-> "verifycs", obj |-> "x", parent |-> "p2", form |-> "ptr", verifiers |-> <<SgN((i % n) + 1)>>] @@ x]
+PickList == st.phase = 0 /\ \E pk \in {"sign1", "sign", "sig"} : \E label \in {7, 11} : \E n \in 2..4 : \E x \in {X1} :
+              st' = [phase |-> 1, flow |-> "list", pk |-> pk, label |-> label, n |-> n, x |-> x]
 PickBind == st.phase = 0 /\ \E pk \in PKinds : \E form \in {"ptr", "val"} : \E abbr \in BOOLEAN : \E dec \in BOOLEAN : \E x \in Exts : \E mu \in Mutations(pk) :
               st' = [phase |-> 1, flow |-> "bind", pk |-> pk, form |-> form, abbr |-> abbr, dec |-> dec, x |-> x, mu |-> mu]
 PickRefuse == st.phase = 0 /\ \E pk \in PKinds : \E form \in {"ptr", "val"} : \E abbr \in BOOLEAN : \E why \in {"unsigned", "nopayload"} :
@@ -136,11 +155,13 @@ PickDeep == Deep /\ st.phase = 0 /\ \E pk \in PKinds : \E form \in {"ptr", "val"
               \* an empty countersigner header needs external data (nothing to insert the algorithm into otherwise is fine for signing, but verification needs alg or external data)
               (real => (mu = "none" /\ w \in {0, 2}))
               /\ st' = [phase |-> 1, flow |-> "deep", pk |-> pk, form |-> form, abbr |-> abbr, dec |-> w # 0, w |-> w, PP |-> PP, CP |-> CP, x |-> x, mu |-> mu, real |-> real]
-Next == PickBind \/ PickRefuse \/ PickReplay \/ PickDeep
+Next == PickBind \/ PickRefuse \/ PickReplay \/ PickDeep \/ PickList
 Spec == Init /\ [][Next]_st
 Emit == st.phase # 1 \/
   CASE st.flow = "bind" -> PrintT(<<"CASE", ToJson([flow |-> "bind", pk |-> st.pk, form |-> st.form, abbr |-> st.abbr, dec |-> st.dec, ext |-> st.x.ext, mu |-> st.mu,
                                                    steps |-> BindProg(st.pk, st.form, st.abbr, st.dec, st.x, st.mu)])>>)
+    [] st.flow = "list" -> PrintT(<<"CASE", ToJson([flow |-> "list", pk |-> st.pk, label |-> st.label, n |-> st.n, ext |-> st.x.ext,
+                                                   steps |-> ListProg(st.pk, st.label, st.n, st.x)])>>)
     [] st.flow = "refuse" -> PrintT(<<"CASE", ToJson([flow |-> "refuse", pk |-> st.pk, form |-> st.form, abbr |-> st.abbr, why |-> st.why, ext |-> st.x.ext,
                                                      steps |-> RefuseProg(st.pk, st.form, st.abbr, st.why, st.x)])>>)
     [] st.flow = "deep" -> PrintT(<<"CASE", ToJson([flow |-> "bind", pk |-> st.pk, form |-> st.form, abbr |-> st.abbr, dec |-> st.dec, ext |-> st.x.ext, mu |-> st.mu, real |-> st.real,
